@@ -65,8 +65,15 @@ class ConvertStreamToSnaxStreamPattern(RewritePattern):
             # Fetch the first stride
             stride, bound = next(access_iter)
 
+            element_type = op.body.block.args[operand].type
+            assert isinstance(element_type, dart.StreamType)
+            assert isinstance(element_type.element_type, builtin.FixedBitwidthType)
+
             # TCDM takes 8 contiguous bytes minimum
             if stride * bound == TCDM_BANK_WIDTH:
+                # the run only fills the bank if its elements are adjacent
+                if bound > 1 and stride != element_type.element_type.size:
+                    raise RuntimeError("Non-contiguous access is not possible for this streamer configuration")
                 stride, bound = next(access_iter)
             elif stride * bound < TCDM_BANK_WIDTH:
                 # non-contiguous access
@@ -77,9 +84,6 @@ class ConvertStreamToSnaxStreamPattern(RewritePattern):
                 stride, bound = next(access_iter)
             else:
                 # a run longer than a bank: only contiguous if the elements are adjacent
-                element_type = op.body.block.args[operand].type
-                assert isinstance(element_type, dart.StreamType)
-                assert isinstance(element_type.element_type, builtin.FixedBitwidthType)
                 if stride != element_type.element_type.size:
                     raise RuntimeError("Non-contiguous access is not possible for this streamer configuration")
                 stride, bound = TCDM_BANK_WIDTH, (stride * bound) // TCDM_BANK_WIDTH
